@@ -18,7 +18,8 @@ CLAIMS = {
     technique="Coq proof (reference-count reclamation on reference graphs, rank certificate) + extracted-graph model correspondence + live-tensor oracle",
     ref="DESIGN.md section 7, C19"),
  "C08": dict(
-    text="MathComp theorems (any number of segments, any sizes, any commutative ring): the segment loop of _SolveIVP.backward over "
+    text="TRANSLATED CODE (TensorNonTensorSeparator regenerated from /repo on every run, validated against CPython): for EVERY parameter list split-then-reconstruct_params is the identity, new tensor arguments land at the tensor positions in order, wrong counts are rejected. "
+         "MathComp theorems (any number of segments, any sizes, any commutative ring): the segment loop of _SolveIVP.backward over "
          "linear adjoint flows computes lam_i = g_i + P_i lam_{i+1}, q_i = q_{i+1} + Q_i lam_{i+1}; the result is additive in the "
          "cotangents and a cotangent at one output time gives the composed pull-back - re-seeding segment by segment equals one "
          "independent adjoint solve per output time; the symbolic partial derivatives used for the augmented dynamics are the "
@@ -57,7 +58,8 @@ CLAIMS = {
     technique="Coq/MathComp proof (generalised eigenproblem and svd algebra, slice and best-iterate theorems) + oracle-tape model correspondence",
     ref="DESIGN.md section 7, C05"),
  "C04": dict(
-    text="[complex unknowns: the conjugate version J^H g = -G, P^H g is proved too] MathComp theorems: for every tangent of f(y(theta), theta) = 0 the two steps of the backward pass (solve J^T g = -G, pull g "
+    text="TRANSLATED CODE (TensorNonTensorSeparator regenerated from /repo on every run, validated against CPython): for EVERY parameter list split-then-reconstruct_params is the identity, new tensor arguments land at the tensor positions in order, wrong counts are rejected. "
+         "[complex unknowns: the conjugate version J^H g = -G, P^H g is proved too] MathComp theorems: for every tangent of f(y(theta), theta) = 0 the two steps of the backward pass (solve J^T g = -G, pull g "
          "back through theta |-> f(y*, theta)) give <G, dy> = <P^T g, dtheta> (any size, any commutative ring); the gradient is "
          "determined by (y*, theta) alone - no forward method, y0 or backward solver enters; the tensor / non-tensor separation "
          "round-trips for every pattern of length <= 10 (by computation) and rejects wrong lengths. The executable Gallina model "
@@ -92,7 +94,8 @@ CLAIMS = {
     technique="Coq/MathComp proof (matrix algebra under an arbitrary derivation) + executable backward-formula correspondence",
     ref="DESIGN.md section 7, C02"),
  "C01": dict(
-    text="Coq theorems: for any carrier / operator / number of columns / options, a silent return of cg and bicgstab carries "
+    text="TRANSLATED CODE (regenerated from /repo on every run, validated against CPython): get_bcasted_dims IS the broadcast shape of the model for any two or more shapes. "
+         "Coq theorems: for any carrier / operator / number of columns / options, a silent return of cg and bicgstab carries "
          "residual norms of the RETURNED iterate below max(rtol|b_j|, atol) for every column; MathComp (any field, any size): one "
          "step of each recurrence preserves r = b - A x (so the test is on the true residual in exact arithmetic), the "
          "normal-equation fallback solves the original system, the adjoint of A - eM is A^H - conj(e)M^H, the Cholesky reduction "
@@ -118,7 +121,8 @@ CLAIMS = {
     technique="Coq proof (loop invariant by induction on fuel; MathComp matrix algebra) + float model correspondence",
     ref="DESIGN.md section 7, C03"),
  "C14": dict(
-    text="MathComp theorems over any ordered field with the code's own coefficients: the two evaluation formulas of each "
+    text="TRANSLATED CODE (regenerated from /repo on every run, validated against CPython): get_bcasted_dims IS the broadcast shape of the model for any two or more shapes. "
+         "MathComp theorems over any ordered field with the code's own coefficients: the two evaluation formulas of each "
          "method coincide; sample values are reproduced at the knots; every cubic piece has the spline's k values as end slopes "
          "(C1); an interior row of the code's linear system holds iff the second derivatives of adjacent pieces agree (C2); the "
          "natural / not-a-knot / periodic boundary rows are exactly (second derivative zero) / (third derivative continuous) / "
@@ -175,7 +179,8 @@ CLAIMS = {
     technique="Coq/MathComp proof (lists; bigop algebra under an arbitrary derivation) + bit-exact float model correspondence",
     ref="DESIGN.md section 7, C16"),
  "C09": dict(
-    text="Coq theorems over the model of the parameter de-duplication and substitution machinery: mapping the unique "
+    text="TRANSLATED CODE (Uniquifier regenerated from /repo on every run, validated against CPython): its constructor computes the model's first-occurrence de-duplication for every list of distinct objects. "
+         "Coq theorems over the model of the parameter de-duplication and substitution machinery: mapping the unique "
          "parameters back gives every slot its own tensor, the unique list has each distinct tensor once, aliasing is "
          "preserved under substitution, user code inside useobjparams sees in every named slot the tensor supplied for that "
          "slot's class, multi-sibling parameter splitting inverts concatenation - for all aliasing patterns and lengths. "
@@ -188,7 +193,8 @@ CLAIMS = {
     technique="Coq proof (lists / first-occurrence de-duplication) + exact correspondence + pairwise function-kind oracle",
     ref="DESIGN.md section 7, C09"),
  "C10": dict(
-    text="Coq theorems: every well-bracketed program of parameter substitutions, state-change locks, debug switches and "
+    text="TRANSLATED CODE (Uniquifier regenerated from /repo on every run, validated against CPython): its constructor computes the model's first-occurrence de-duplication for every list of distinct objects. "
+         "Coq theorems: every well-bracketed program of parameter substitutions, state-change locks, debug switches and "
          "user-code evaluations, with a crash at ANY evaluation or none, returns the object store, the wrapper's current "
          "parameters, the restore stack, the permission flag and the debug flag to exactly their initial values (induction on "
          "programs); LIFO unwinding; refused substitution touches nothing; nn.Module parameter registration (objects and "
@@ -200,7 +206,8 @@ CLAIMS = {
     technique="Coq proof by induction over bracketed programs with crash points + exact correspondence + crash-point enumeration",
     ref="DESIGN.md section 7, C10"),
  "C11": dict(
-    text="Coq/MathComp theorems for every operator expression tree, every size, operand width and commutative ring with "
+    text="TRANSLATED CODE (regenerated from /repo on every run, validated against CPython): get_bcasted_dims IS the broadcast shape of the model for any two or more shapes. "
+         "Coq/MathComp theorems for every operator expression tree, every size, operand width and commutative ring with "
          "involution: mv/mm apply the expression's matrix, rmv/rmm its conjugate transpose, fullmatrix returns it; no product "
          "reaches a NotImplementedError stub for any subset of optional methods; the simplifying constructors preserve the "
          "matrix; capability flags are those of the class itself for every class table and instantiation history. The "
@@ -226,7 +233,8 @@ CLAIMS = {
     technique="Coq proof over translator-regenerated tableaux (order conditions by complete tree enumeration) + float-instance model correspondence",
     ref="DESIGN.md section 7, C07"),
  "C18": dict(
-    text="Coq theorems over a model of get_method and of the code in front of it in all ten functionals: "
+    text="TRANSLATED CODE (get_method, set_default_option, get_and_pop_keys regenerated from /repo on every run, validated against CPython): get_method refines the dispatch model and never returns a silent default; get_and_pop_keys hands over exactly the requested keys and removes them; "
+         "Coq theorems over a model of get_method and of the code in front of it in all ten functionals: "
          "dispatch is case-insensitive for every string, unknown names are rejected (never defaulted), callables are "
          "passed through, custom callables receive the caller's options minus `method`; the name tables are "
          "regenerated from /repo by a translator on every run and table facts (keys lower-case/distinct, every key, "
@@ -239,7 +247,8 @@ CLAIMS = {
     technique="Coq proof over translator-regenerated tables + exact dispatch correspondence + closed-form-callable gradient oracle",
     ref="DESIGN.md section 7, C18"),
  "C20": dict(
-    text="Coq theorems over a Gallina model of Packer (extract/put round-trip, unique index spec, aliasing, "
+    text="TRANSLATED CODE (packer._get_unique_idxs regenerated from /repo on every run, validated against CPython) computes the model's get_unique_idxs for every tensor list. "
+         "Coq theorems over a Gallina model of Packer (extract/put round-trip, unique index spec, aliasing, "
          "flat round-trip, state = function of structure and of which get_* occurred, rejections) for all "
          "structures, aliasing patterns and operation sequences; model tied to /repo by exact differential "
          "correspondence (vm_compute) on random and exhaustively enumerated structures x op sequences.",
